@@ -16,6 +16,7 @@ import (
 // behind the stale one – every segment after the SYN finds the old state and is never acknowledged.
 func c14NewStateInFrontOfTimeWait(c *Ctx) {
 	const rule = "new-state-before-time-wait"
+	c.Explanation += " StateTable.Add takes a TIME-WAIT slot in the scan iteration that finds it (Get returns the first match whatever its state)."
 	p := c.P
 	add := p.Method(canaryRel, "StateTable", "Add")
 	get := p.Method(canaryRel, "StateTable", "Get")
@@ -50,6 +51,35 @@ func c14NewStateInFrontOfTimeWait(c *Ctx) {
 			continue
 		}
 		atom, pol0 := condAtom(iff.Cond)
+		// `if st.slotFree(i)`: the test sits in a predicate of the package; which edge means "TIME-WAIT" is not derived, it
+		// is enough that one edge of the branch stores the new state in this iteration
+		if hc, isCall := atom.(*ssa.Call); isCall {
+			if hf := hc.Call.StaticCallee(); hf != nil && InRepo(hf) && hf.Blocks != nil && testsTimeWait(p, hf, isStateLoad) {
+				n++
+				var loop *Loop
+				for _, l := range loops {
+					if l.Blocks[b] && (loop == nil || len(l.Blocks) < len(loop.Blocks)) {
+						loop = l
+					}
+				}
+				found := false
+				if loop != nil {
+					for _, succ := range b.Succs {
+						for rb := range ReachBlocks([]*ssa.BasicBlock{succ}, nil, map[*ssa.BasicBlock]bool{loop.Header: true}) {
+							for _, in := range rb.Instrs {
+								if st, ok := in.(*ssa.Store); ok && st.Val == ssa.Value(newState) {
+									if _, isIA := st.Addr.(*ssa.IndexAddr); isIA {
+										found = true
+									}
+								}
+							}
+						}
+					}
+				}
+				c.Check(found, rule, "Add: slot in TIME-WAIT (via "+shortFn(hf)+")", p.InstrPos(iff), "taken in the iteration that finds it", "a slot in TIME-WAIT is not taken in the scan iteration that finds it: when a free slot exists the new state goes behind the TIME-WAIT leftover of the same port pair, and Get – which returns the first match whatever its state – hands every later segment of the new connection to the old state")
+			}
+			continue
+		}
 		bo, ok := atom.(*ssa.BinOp)
 		if !ok || (bo.Op != token.EQL && bo.Op != token.NEQ) {
 			continue
@@ -107,6 +137,22 @@ func isTimeWaitConst(p *Program, k ssa.Value) bool {
 	}
 	if m, ok := pkg.Members["SocketTimeWait"].(*ssa.NamedConst); ok && m.Value != nil && m.Value.Value != nil {
 		return m.Value.Value.ExactString() == kc.Value.ExactString()
+	}
+	return false
+}
+
+// testsTimeWait: h compares a connection state with SocketTimeWait.
+func testsTimeWait(p *Program, h *ssa.Function, isStateLoad func(ssa.Value) bool) bool {
+	for _, b := range h.Blocks {
+		for _, in := range b.Instrs {
+			bo, ok := in.(*ssa.BinOp)
+			if !ok || (bo.Op != token.EQL && bo.Op != token.NEQ) {
+				continue
+			}
+			if (isStateLoad(bo.X) && isTimeWaitConst(p, bo.Y)) || (isStateLoad(bo.Y) && isTimeWaitConst(p, bo.X)) {
+				return true
+			}
+		}
 	}
 	return false
 }
